@@ -68,6 +68,23 @@ func tierBudget(tier string) (minimise int) {
 	return 12
 }
 
+// violations returns every violation an outcome carries.
+func violations(o *Outcome) []*Violation {
+	if o == nil || o.Violation == nil {
+		return nil
+	}
+	return append([]*Violation{o.Violation}, o.More...)
+}
+
+func hasKey(o *Outcome, key string) *Violation {
+	for _, v := range violations(o) {
+		if v.Key == key {
+			return v
+		}
+	}
+	return nil
+}
+
 // Main runs check id at tier and returns the process exit code.
 func Main(id, tier string, seed int64, replayPath string) int {
 	mk, ok := Registry[id]
@@ -93,6 +110,7 @@ func Main(id, tier string, seed int64, replayPath string) int {
 		fmt.Sscan(w, &env.Workers)
 	}
 	defer env.Close()
+	env.ClockSites, env.GlobalRand = res.Report.ClockSites, res.Report.GlobalRand
 	env.SetExtra("instrumented_call_sites", res.Report.Sites)
 	env.SetExtra("unrouted_references", res.Report.Unrouted)
 	env.SetExtra("garble_sim_key", res.Key)
@@ -107,7 +125,7 @@ func Main(id, tier string, seed int64, replayPath string) int {
 	}
 
 	if replayPath != "" {
-		return replayOne(chk, env, replayPath)
+		return replayOne(chk, env, known, replayPath)
 	}
 
 	cases, err := chk.Generate(env)
@@ -124,6 +142,7 @@ func Main(id, tier string, seed int64, replayPath string) int {
 	type vio struct {
 		c *Case
 		o *Outcome
+		v *Violation
 	}
 	var vios []vio
 	for _, r := range results {
@@ -132,8 +151,8 @@ func Main(id, tier string, seed int64, replayPath string) int {
 			continue
 		}
 		ev.add(r)
-		if r.o.Violation != nil {
-			vios = append(vios, vio{r.c, r.o})
+		for _, v := range violations(r.o) {
+			vios = append(vios, vio{r.c, r.o, v})
 		}
 	}
 	exit := 0
@@ -151,40 +170,50 @@ func Main(id, tier string, seed int64, replayPath string) int {
 	// Known findings first, then distinct new violations (one report per key).
 	seenKnown := map[string]bool{}
 	seenNew := map[string]bool{}
+	reported := map[string]bool{}
 	newCount := 0
 	for _, v := range vios {
-		if what, ok := known.match(id, v.o.Violation); ok {
-			if !seenKnown[v.o.Violation.Key] {
-				seenKnown[v.o.Violation.Key] = true
-				fmt.Printf("KNOWN-FINDING: property=%s %s [%s]\n", id, what, v.o.Violation.Key)
+		if what, ok := known.match(id, v.v); ok {
+			if !seenKnown[v.v.Key] {
+				seenKnown[v.v.Key] = true
+				fmt.Printf("KNOWN-FINDING: property=%s %s [%s]\n", id, what, v.v.Key)
 			}
 			ev.KnownHits++
 			continue
 		}
-		if seenNew[v.o.Violation.Key] {
-			ev.Violations++
+		ev.Violations++
+		if seenNew[v.v.Key] {
 			continue
 		}
-		seenNew[v.o.Violation.Key] = true
-		ev.Violations++
+		seenNew[v.v.Key] = true
 		newCount++
 		if newCount > 8 {
 			continue // enough distinct reports for one run
 		}
-		c, o := minimise(chk, env, v.c, v.o, tierBudget(tier))
-		path, confirmed := writeReplay(chk, env, c, o)
+		c, o, vv := minimise(chk, env, v.c, v.o, v.v, tierBudget(tier))
+		if reported[vv.Key] {
+			continue // minimisation led to an already reported violation
+		}
+		reported[vv.Key] = true
+		if _, ok := known.match(id, vv); ok {
+			continue
+		}
+		path, confirmed := writeReplay(chk, env, c, o, vv)
 		if !confirmed {
-			fmt.Printf("FLAKY: property=%s class=%s key=%s did not reproduce on replay (%s)\n", id, o.Violation.Class, o.Violation.Key, path)
+			fmt.Printf("FLAKY: property=%s class=%s key=%s did not reproduce on replay (%s)\n", id, vv.Class, vv.Key, path)
 			if exit == 0 {
 				exit = 2
 			}
 			continue
 		}
 		fmt.Printf("VIOLATION property=%s replay=%s\n", id, path)
-		fmt.Printf("  class=%s key=%s\n  %s\n", o.Violation.Class, o.Violation.Key, strings.ReplaceAll(firstLines(o.Violation.Detail, 12), "\n", "\n  "))
+		fmt.Printf("  class=%s key=%s\n  %s\n", vv.Class, vv.Key, strings.ReplaceAll(firstLines(vv.Detail, 12), "\n", "\n  "))
 		exit = 1
 	}
 	ev.finish(env, time.Since(start))
+	if s, ok := chk.(interface{ Summary([]result) any }); ok {
+		ev.extra["summary"] = s.Summary(results)
+	}
 	if err := ev.write(); err != nil {
 		fmt.Fprintf(os.Stderr, "INFRA: evidence: %v\n", err)
 		if exit == 0 {
@@ -215,7 +244,7 @@ func runAll(chk Check, env *Env, cases []*Case) []result {
 				t0 := time.Now()
 				o, err := safeRun(chk, env, cases[idx])
 				results[idx] = result{c: cases[idx], o: o, err: err, dur: time.Since(t0)}
-				if d := time.Since(t0); d > 30*time.Second || os.Getenv("VERIF_VERBOSE") != "" {
+				if d := time.Since(t0); d > 60*time.Second || os.Getenv("VERIF_VERBOSE") != "" {
 					ps := string(cases[idx].Params)
 					if len(ps) > 300 {
 						ps = ps[:300]
@@ -253,9 +282,8 @@ func safeRun(chk Check, env *Env, c *Case) (o *Outcome, err error) {
 }
 
 // minimise greedily tries the check's shrink candidates while the same
-// violation class persists, within a budget of re-runs.
-func minimise(chk Check, env *Env, c *Case, o *Outcome, budget int) (*Case, *Outcome) {
-	class := o.Violation.Class
+// violation (same key, else same class) persists, within a budget of re-runs.
+func minimise(chk Check, env *Env, c *Case, o *Outcome, v *Violation, budget int) (*Case, *Outcome, *Violation) {
 	for budget > 0 {
 		cands := chk.Shrink(c)
 		if len(cands) == 0 {
@@ -267,34 +295,50 @@ func minimise(chk Check, env *Env, c *Case, o *Outcome, budget int) (*Case, *Out
 		budget -= len(cands)
 		rs := runAll(chk, env, cands)
 		improved := false
-		for _, r := range rs {
-			if r.err == nil && r.o.Violation != nil && r.o.Violation.Class == class {
-				c, o = r.c, r.o
-				improved = true
-				break
+		for pass := 0; pass < 2 && !improved; pass++ {
+			for _, r := range rs {
+				if r.err != nil {
+					continue
+				}
+				var nv *Violation
+				if pass == 0 {
+					nv = hasKey(r.o, v.Key)
+				} else {
+					for _, x := range violations(r.o) {
+						if x.Class == v.Class {
+							nv = x
+							break
+						}
+					}
+				}
+				if nv != nil {
+					c, o, v = r.c, r.o, nv
+					improved = true
+					break
+				}
 			}
 		}
 		if !improved {
 			break
 		}
 	}
-	return c, o
+	return c, o, v
 }
 
-func writeReplay(chk Check, env *Env, c *Case, o *Outcome) (string, bool) {
+func writeReplay(chk Check, env *Env, c *Case, o *Outcome, v *Violation) (string, bool) {
 	rc := *c
 	rc.Traces = o.Traces
-	rc.Expect = o.Violation.Class
-	rc.Detail = o.Violation.Key + ": " + o.Violation.Detail
+	rc.Expect = v.Key
+	rc.Detail = v.Detail
 	dir := filepath.Join(simbuild.VerifDir(), "replays")
 	os.MkdirAll(dir, 0o755)
-	name := fmt.Sprintf("%s-%d-%s.json", chk.ID(), env.Seed, sanitize(o.Violation.Key))
+	name := fmt.Sprintf("%s-%d-%s.json", chk.ID(), env.Seed, sanitize(v.Key))
 	path := filepath.Join(dir, name)
 	b, _ := json.MarshalIndent(rc, "", " ")
 	os.WriteFile(path, b, 0o644)
-	// Confirm in a fresh execution that the replay reproduces the class.
+	// Confirm in a fresh execution that the replay reproduces the violation.
 	o2, err := safeRun(chk, env, &rc)
-	if err != nil || o2.Violation == nil || o2.Violation.Class != rc.Expect {
+	if err != nil || hasKey(o2, v.Key) == nil {
 		return path, false
 	}
 	return path, true
@@ -311,13 +355,13 @@ func sanitize(s string) string {
 		}
 	}
 	out := b.String()
-	if len(out) > 80 {
-		out = out[:80]
+	if len(out) > 90 {
+		out = out[:90]
 	}
 	return out
 }
 
-func replayOne(chk Check, env *Env, path string) int {
+func replayOne(chk Check, env *Env, known *KnownFindings, path string) int {
 	b, err := os.ReadFile(path)
 	if err != nil {
 		fmt.Fprintf(os.Stderr, "INFRA: %v\n", err)
@@ -333,13 +377,20 @@ func replayOne(chk Check, env *Env, path string) int {
 		fmt.Fprintf(os.Stderr, "INFRA: replay: %v\n", err)
 		return 2
 	}
-	if o.Violation == nil {
-		fmt.Printf("replay %s: property held (expected class %q)\n", path, c.Expect)
-		return 0
+	exit := 0
+	for _, v := range violations(o) {
+		if what, ok := known.match(chk.ID(), v); ok {
+			fmt.Printf("KNOWN-FINDING: property=%s %s [%s]\n", chk.ID(), what, v.Key)
+			continue
+		}
+		fmt.Printf("VIOLATION property=%s replay=%s\n  class=%s key=%s\n  %s\n", chk.ID(), path, v.Class, v.Key, strings.ReplaceAll(firstLines(v.Detail, 20), "\n", "\n  "))
+		exit = 1
 	}
-	fmt.Printf("VIOLATION property=%s replay=%s\n  class=%s key=%s\n  %s\n", chk.ID(), path, o.Violation.Class, o.Violation.Key, strings.ReplaceAll(firstLines(o.Violation.Detail, 20), "\n", "\n  "))
-	return 1
+	if exit == 0 {
+		fmt.Printf("replay %s: no unlisted violation (file expects %q)\n", path, c.Expect)
+	}
+	return exit
 }
 
-// simErr classifies an engine error.
+// isInfra classifies an engine error.
 func isInfra(err error) bool { return errors.Is(err, engine.ErrInfra) }
